@@ -241,6 +241,9 @@ void NiGeometryData::Create(NiVersion&,
 		SetNormals(false);
 		SetTangents(false);
 	}
+
+	// Vertex colors are not part of the creation data and don't fit the new vertex count anymore
+	SetVertexColors(false);
 }
 
 void NiGeometryData::notifyVerticesDelete(const std::vector<uint16_t>& vertIndices) {
